@@ -10,6 +10,7 @@ import (
 	"math"
 	"math/big"
 	"os"
+	"regexp"
 	"sort"
 	"strings"
 
@@ -294,6 +295,8 @@ func engineErrKind(err error, panicS string) string {
 	return "other"
 }
 
+var numericText = regexp.MustCompile(`^-?[0-9]+(\\.[0-9]+)?$`)
+
 func evaluate(cs *Case) *outcome {
 	o := &outcome{sql: caseSQL(cs)}
 	in := &interp{tables: cs.Tables}
@@ -307,11 +310,24 @@ func evaluate(cs *Case) *outcome {
 	r := s.Query(o.sql)
 	o.err, o.panicS = r.Err, r.Panic
 	o.ekind = engineErrKind(r.Err, r.Panic)
+	setop := hasSetOp(cs)
 	if r.Err == nil {
 		for _, row := range r.Rows {
 			er := make([]EV, len(row))
 			for i, v := range row {
 				er[i] = evOf(v)
+				// a set operation over numeric columns of different engine types (DOUBLE / BIGINT / NULL arithmetic) is
+				// typed as text by the engine; the values are compared as numbers (no generated string looks like a number)
+				if setop && er[i].Kind == 2 && numericText.MatchString(er[i].Str) {
+					if r, ok := new(big.Rat).SetString(er[i].Str); ok {
+						s := 0
+						if j := strings.IndexByte(er[i].Str, '.'); j >= 0 {
+							s = len(er[i].Str) - j - 1
+						}
+						n := new(big.Rat).Mul(r, new(big.Rat).SetInt(p10(s)))
+						er[i] = EV{Kind: 1, M: new(big.Int).Set(n.Num()), S: s}
+					}
+				}
 			}
 			o.rows = append(o.rows, er)
 		}
@@ -338,12 +354,6 @@ func (o *outcome) verdict(ordered bool) string {
 	case o.ekind == "other":
 		return "engine-error[" + errKey(o.err) + "]"
 	case !rowsMatch(ordered, o.refRows, o.rows):
-		lenientText = true
-		ok := rowsMatch(ordered, o.refRows, o.rows)
-		lenientText = false
-		if ok {
-			return "number-returned-as-text"
-		}
 		return "wrong-rows"
 	}
 	return ""
@@ -472,12 +482,6 @@ func run(c *lib.Ctx, cs *Case) {
 	if v == "spurious-cardinality-error" && !strings.Contains(cls, "+") && cls != "" && isRootCause(cls) {
 		// the same root cause surfacing as an error because the mis-evaluated filter lets a row through
 		sig = "wrong-rows:" + cls
-	}
-	if v == "number-returned-as-text" {
-		sig = "wrong-rows:set-operation-returns-numbers-as-text"
-		if !hasSetOp(small) {
-			sig = "wrong-rows:numbers-as-text:" + classify(small, so)
-		}
 	}
 	what := fmt.Sprintf("%s: engine returns %v, the SQL definition gives %v for %s  after %s", v, small.Engine, small.Ref, small.SQL, strings.Join(small.Setup, "; "))
 	c.PredFail(id, sig, what, map[string]interface{}{"shrunk": small, "original": cs})
